@@ -73,7 +73,15 @@ def _case(draw, tier="quick"):
         cmax = 1.4 if dtype == "float32" else 2.4
         J = build("svd", m, n, rng, {"cond": 10.0 ** draw(st.floats(0, cmax))})
         fam = "svd_full"
-        if m >= 2 and draw(st.sampled_from([True, False, False, False])):
+        if name in rel.RANK_BASED and m >= 3 and draw(st.sampled_from([True, False, False])):
+            # tall matrix (more objectives than parameters): rank n < m, but unambiguous - the column space is well conditioned
+            n = draw(st.integers(1, m - 1))
+            if draw(st.booleans()):
+                J = rng.integers(-9, 10, size=(m, n)) / 10.0  # "hand-typed" one-decimal entries
+            else:
+                J = build("svd", m, n, rng, {"cond": 10.0 ** draw(st.floats(0, 1.0))})
+            fam = "tall"
+        elif m >= 2 and draw(st.sampled_from([True, False, False, False])):
             # exactly-zero rows: rank deficient but numerically unambiguous (objectives that are already stationary)
             J[rng.choice(m, size=int(rng.integers(1, m)), replace=False)] = 0.0
             fam = "svd_full+zero_rows"
@@ -112,8 +120,8 @@ def _permuted_spec(spec, pi):
     return sp
 
 
-def _run(spec, dtype, Jt, seed):
-    A = aggs.make(spec, dtype)
+def _run(spec, dtype, Jt, seed, A=None):
+    A = A if A is not None else aggs.make(spec, dtype)
     torch.manual_seed(seed)
     return A, A(Jt)
 
@@ -166,7 +174,8 @@ def run_case(case) -> Outcome:
         n_eval += 1
         Jp = Jt[pi]
         sp = _permuted_spec(spec, pi)
-        r = out.call(f"raises:{name}", _run, sp, dtype, Jp, case["seed"])
+        # without a configured vector the SAME instance serves every permutation (as in a training loop)
+        r = out.call(f"raises:{name}", _run, sp, dtype, Jp, case["seed"], A if configured is None else None)
         if r is RAISED:
             return out
         x1 = r[1].double().numpy()
@@ -188,8 +197,8 @@ def run_case(case) -> Outcome:
                 bound = d0 + rel.mgda_loose_bound(J[pi], x1) + tol
                 ok = out.check(err <= bound, label + ":loose", msg + f" differ by {err:.3e} > d(J)+d(J[pi]) = {bound:.3e}")
         elif name == "GradDrop" and err > tol:
-            r2 = _run(sp, dtype, Jp, case["seed"] + 1)[1].double().numpy()
-            x0b = _run(spec, dtype, Jt, case["seed"] + 1)[1].double().numpy()
+            r2 = _run(sp, dtype, Jp, case["seed"] + 1, A if configured is None else None)[1].double().numpy()
+            x0b = _run(spec, dtype, Jt, case["seed"] + 1, A if configured is None else None)[1].double().numpy()
             ok = out.within(float(np.linalg.norm(r2 - x0b)), tol, label, msg + " (and again after re-seeding)")
         else:
             ok = out.within(err, tol, label, msg)
